@@ -14,7 +14,7 @@ func TestSelfPlumbing(t *testing.T) {
 }
 
 func TestSelfOracles(t *testing.T) {
-	for name, fn := range map[string]func() error{"1D": ref.SelfTest1D, "QR": ref.SelfTestQR, "DataMatrix": ref.SelfTestDM, "PDF417": ref.SelfTestPDF417} {
+	for name, fn := range map[string]func() error{"1D": ref.SelfTest1D, "QR": ref.SelfTestQR, "DataMatrix": ref.SelfTestDM, "PDF417": ref.SelfTestPDF417, "Aztec": ref.SelfTestAztec} {
 		if err := fn(); err != nil {
 			t.Fatalf("oracle self-test %s: %v", name, err)
 		}
